@@ -4,6 +4,7 @@ use crate::{analysis::*, history::*, model::*};
 
 pub fn check(v: &View, vd: &mut Verdict) {
     let mut nt = false;
+    super::c10::timer_died_early(v, vd, "C07");
     for a in 0..v.actors.len() {
         if v.actors[a].spawned.is_none() || v.rt[a].origin == Origin::Phantom || v.rt[a].stream {
             continue;
